@@ -47,6 +47,15 @@ def must_fail(wd, cfg, what, module="HostMC"):
 
 # ------------------------------------------------------------------ shared: Leg R
 
+def died(results):
+    """A harness process that exits non-zero died on a harness-internal error (t.Fatal / panic): its results are
+    partial, which is infrastructure trouble even if it had already recorded mismatches."""
+    for r in results:
+        if r.get("exit"):
+            tail = open(r["log"], errors="replace").read()[-3000:]
+            raise vlib.Infra("harness process died (exit %s):\n%s" % (r["exit"], tail))
+
+
 def slim(e):
     return {"act": e["act"], "reply": e["reply"], "calls": e["calls"], "to": e["to"]}
 
@@ -55,12 +64,41 @@ def open_sessions(state):
     return [i + 1 for i, s in enumerate(state["sess"]) if s["round"] != 0]
 
 
+REQUIRED_OPS = {
+    "roots": ["BeginFree", "Round2Free", "BeginAppend", "Round2Append", "BeginRoots", "Deliver", "Finish", "Abort", "Truncated"],
+    "accounts": ["BeginFund", "BeginRepl", "Round2Repl", "BeginAttach", "BeginDetach", "BeginRead", "BeginWrite", "BeginVerify", "BeginBalance",
+                 "Deliver", "Finish", "Abort"],
+    "revisions": ["BeginFree", "Round2Free", "BeginAppend", "Round2Append", "BeginRoots", "BeginLatest", "BeginFund", "BeginRepl", "Round2Repl",
+                  "BeginRenew", "Round2Renew", "Deliver", "Finish", "Abort"],
+}
+
+
+def graph_histogram(edges, family):
+    """Non-vacuity of the exported graph: every action of the family occurs, some exchanges commit, some are
+    refused (a cfg whose alphabet lost an action or whose guards are never true must not pass silently)."""
+    ops = {}
+    commits = rejects = 0
+    for e in edges:
+        op = e["act"]["op"]
+        ops[op] = ops.get(op, 0) + 1
+        if e["to"]["rev"]["num"] > e["from"]["rev"]["num"] and op != "Setup":
+            commits += 1
+        if op == "Finish" and e["reply"]["k"] == "rej":
+            rejects += 1
+    missing = [o for o in REQUIRED_OPS.get(family, []) if o not in ops]
+    if missing or not commits or not rejects:
+        raise vlib.Infra("vacuous edge export for %s: missing actions %s, %d commits, %d refusals" % (family, missing, commits, rejects))
+    return dict(ops=ops, commits=commits, rejects=rejects)
+
+
 def export_paths(wd, cfg, max_paths=None, max_len=14):
     """Runs the edge-export cfg, builds an edge-covering path set and completes every path until no
     session is in flight (so that every reply is read and every lock released)."""
     r = vlib.run_tlc(wd, "HostMC", cfg, workers=1, timeout=1500)
     vlib.tlc_must_pass(r, "edge export " + cfg)
     nst, ned = vlib.graph_stats(r.edges)
+    family = "roots" if "_roots_" in cfg else "accounts" if "_accounts_" in cfg else "revisions"
+    hist = graph_histogram(r.edges, family)
     if nst != r.distinct:
         raise vlib.Infra("edge export %s: graph has %d states, TLC reports %d" % (cfg, nst, r.distinct))
     rng = random.Random(vlib.seed())
@@ -96,7 +134,7 @@ def export_paths(wd, cfg, max_paths=None, max_len=14):
     log("  R: %s: graph %d states / %d edges; %d paths cover %d edges%s" %
         (cfg, nst, ned, total, covered, "" if len(done) == total else " (seeded sample of %d paths replayed)" % len(done)))
     return dict(states=nst, edges=ned, paths=total, covered=covered, full=(covered == ned and len(done) == total),
-                tlc=r, replayed=len(done)), done
+                tlc=r, replayed=len(done), histogram=hist), done
 
 
 def run_replay(wd, binary, family, paths, allowance, collateral, verdict, listable="some", stub="", shards=6, tag="replay"):
@@ -116,6 +154,7 @@ def run_replay(wd, binary, family, paths, allowance, collateral, verdict, listab
         return res
     with cf.ThreadPoolExecutor(max_workers=shards) as ex:
         rs = list(ex.map(one, range(shards)))
+    died(rs)
     steps = sum(r["evaluations"] for r in rs)
     nmm = 0
     counts = {}
@@ -145,6 +184,7 @@ def run_driver(wd, binary, family, shards, env, verdict, stub=""):
         return vlib.go_run(binary, "TestDriver", wd, env=e, timeout=1500, tag="driver_%s_%d" % (family, i))
     with cf.ThreadPoolExecutor(max_workers=shards) as ex:
         rs = list(ex.map(one, range(shards)))
+    died(rs)
     files = [os.path.join(wd, "hosttrace-%s-%d.ndjson" % (family, i)) for i in range(shards)]
     counts = {}
     samples = []
@@ -382,6 +422,7 @@ def run(tier):
                   "constants": "contracts of 0..%d sectors, every index list over 0..size up to that length (any order, duplicates, out of range), "
                                "appends with unknown roots, every sector-roots range, abort at every round; complete reachable state space up to 2 commits" % (4 if tier == "quick" else 5)},
         "replay": {k: rr[k] for k in ("states", "edges", "paths", "covered", "replayed", "steps", "full", "mismatches")},
+        "replay_graph": rr["histogram"],
         "replay_counts": rr["counts"],
         "trace_validation": {k: tt[k] for k in ("traces", "events", "accepted", "rejected", "suspect")},
         "client_api_lists": tt["client"]["counts"].get("clientfree_lists", 0),
